@@ -3,8 +3,10 @@ package checks
 import (
 	"fmt"
 	"github.com/textwire/textwire/v2/config"
+	"math"
 	"math/rand"
 	"os"
+	"os/exec"
 	"path/filepath"
 	"strings"
 
@@ -64,7 +66,16 @@ func observe(out string, err error) string {
 
 func genDetCase(c *core.Ctx, i int) detCase {
 	r := c.Rng
-	switch i % 10 {
+	switch i % 11 {
+	case 10: // template names that differ only in case, looked up under each spelling and under spellings no file has
+		names := []string{"Home", "HOME", "home", "hOmE", "sub/Page", "sub/PAGE", "Sub/page"}
+		r.Shuffle(len(names), func(a, b int) { names[a], names[b] = names[b], names[a] })
+		files := map[string]string{"other.tw": "other"}
+		for _, n := range names[:2+r.Intn(3)] {
+			files[n+".tw"] = "this is " + n
+		}
+		want := []string{"home", "Home", "HOME", "hoME", "sub/page", "SUB/PAGE", "Sub/Page", "OTHER", "Other"}[r.Intn(9)]
+		return treeDetCase(files, want)
 	case 8: // shuffle() and rand() may vary, nothing else: programs that use their results only in ways that do not depend on the order
 		n := 2 + r.Intn(14)
 		items := make([]int, n)
@@ -306,6 +317,101 @@ func treeDetCase(files map[string]string, page string) detCase {
 	}}
 }
 
+// two struct types that print one name (each declared inside its own function), as two handlers of one program have them
+func c14CardA() any {
+	type card struct{ Price int }
+	return []card{{7}, {8}}
+}
+
+func c14CardB() any {
+	type card struct {
+		Price, Stock int
+		Tags         []string
+	}
+	return []card{{7, 12, []string{"a", "b"}}}
+}
+
+// operations a fresh process performs in a given order; each returns its observation
+var c14ProcOps = []struct {
+	name string
+	run  func() string
+}{
+	{"print a struct of the first type named card", func() string {
+		return observe(textwire.EvaluateString("{{ v }}|{{ v[0].price }}", map[string]any{"v": c14CardA()}))
+	}},
+	{"print a struct of the second type named card", func() string {
+		return observe(textwire.EvaluateString("{{ v }}|{{ v[0].stock }}|{{ v[0].tags }}", map[string]any{"v": c14CardB()}))
+	}},
+	{"load and render the tree under site-a (as working directory)", func() string { return c14TreeAt("site-a") }},
+	{"load and render the tree under site-b (as working directory)", func() string { return c14TreeAt("site-b") }},
+	{"the string form of +0.0", func() string {
+		return observe(textwire.EvaluateString("{{ x.str() }}|{{ x }}|{{ (x * 1.0).str() }}", map[string]any{"x": 0.0}))
+	}},
+	{"the string form of -0.0", func() string {
+		return observe(textwire.EvaluateString("{{ x.str() }}|{{ x }}|{{ (x * 1.0).str() }}", map[string]any{"x": math.Copysign(0, -1)}))
+	}},
+	{"a failing render without data", func() string {
+		return observe(textwire.EvaluateString("{{ title = 'Home' }}{{ title }}{{ 1 / 0 }}", nil))
+	}},
+	{"a render without data that reads a name", func() string {
+		return observe(textwire.EvaluateString("{{ title }}", nil))
+	}},
+	{"evaluate a file by relative path under site-b", func() string {
+		os.Chdir(c14ProcRoot)
+		os.Chdir("site-b")
+		return observe(textwire.EvaluateFile("views/index.tw", map[string]any{"who": "file"}))
+	}},
+}
+
+var c14ProcRoot string
+
+// c14TreeAt makes dir the working directory and loads the tree found under its relative directory "views"
+func c14TreeAt(dir string) string {
+	os.Chdir(c14ProcRoot)
+	if err := os.Chdir(dir); err != nil {
+		return "CHDIR:" + err.Error()
+	}
+	textwire.VerifResetConfig()
+	tpl, err := textwire.NewTemplate(&config.Config{TemplateDir: "views", TemplateExt: ".tw"})
+	if err != nil {
+		return "LOADERR:" + err.Error()
+	}
+	out, fe := tpl.String("index", map[string]any{"who": "w"})
+	obs := "OUT:" + out
+	if fe != nil {
+		obs = fmt.Sprintf("ERR:%s|line=%d|path=%s", fe.Message(), fe.Line(), fe.Filepath())
+	}
+	_, fe = tpl.String("bad", nil)
+	if fe != nil {
+		obs += fmt.Sprintf("|bad: ERR:%s|line=%d|path=%s", fe.Message(), fe.Line(), fe.Filepath())
+	}
+	return obs
+}
+
+func init() {
+	// aux c14-fresh <op> <op> ...: the operations in this order in a fresh process, observations one per record
+	core.RegisterAux("c14-fresh", func(args []string) int {
+		c14ProcRoot, _ = os.Getwd()
+		for _, site := range []string{"site-a", "site-b"} {
+			files := map[string]string{"views/index.tw": "@use(\"~main\")@insert(\"body\")index of " + site + " for {{ who }}@end", "views/layouts/main.tw": "<" + site + ">@reserve(\"body\")</" + site + ">",
+				"views/bad.tw": "line one of " + site + "\n{{ nothing.here }}"}
+			if site == "site-b" {
+				files["views/bad.tw"] = "\n\n" + files["views/bad.tw"]
+			}
+			if err := writeFiles(site, files); err != nil {
+				fmt.Fprintln(os.Stderr, err)
+				return 3
+			}
+		}
+		for _, a := range args {
+			var o int
+			fmt.Sscan(a, &o)
+			fmt.Print(strings.ReplaceAll(c14ProcOps[o].run(), c14ProcRoot, "<root>"), "\x1e")
+		}
+		return 0
+	})
+}
+
 func init() {
 	core.Register(&core.Check{
 		ID:    "C14",
@@ -326,7 +432,58 @@ func init() {
 			if tier == core.Thorough {
 				n, r1, r2 = 40000, 40, 8
 			}
-			return []core.Section{{Name: "repetitions", N: n * r2, Run: func(c *core.Ctx, i int) {
+			// an operation gives in a process that did something else before what it gives as the first thing a fresh process does
+			np := len(c14ProcOps)
+			fresh := core.Section{Name: "across-fresh-processes", Exhaustive: true, N: np * np, Run: func(c *core.Ctx, i int) {
+				p, o := i/np, i%np
+				if p == o {
+					return
+				}
+				child := func(ops ...int) ([]string, bool) {
+					dir := filepath.Join(c.WorkDir, "c14proc")
+					os.RemoveAll(dir)
+					os.MkdirAll(dir, 0o755)
+					defer os.RemoveAll(dir)
+					exe, _ := os.Executable()
+					args := []string{"aux", "c14-fresh"}
+					for _, k := range ops {
+						args = append(args, fmt.Sprint(k))
+					}
+					cmd := exec.Command(exe, args...)
+					cmd.Dir = dir
+					var stderr strings.Builder
+					cmd.Stderr = &stderr
+					out, err := cmd.Output()
+					c.Eval(len(ops))
+					if err != nil {
+						if se := stderr.String(); strings.Contains(se, "panic:") || strings.Contains(se, "fatal error:") {
+							c.Violation("panic:in-fresh-process", fmt.Sprintf("a fresh process that performs the operations %v crashed: %s", ops, clipS(se, 400)), map[string]any{"operations": ops})
+							return nil, false
+						}
+						c.Inconclusive(fmt.Sprintf("child process %v failed: %v", args, err))
+						return nil, false
+					}
+					recs := strings.Split(strings.TrimSuffix(string(out), "\x1e"), "\x1e")
+					return recs, len(recs) == len(ops)
+				}
+				desc := map[string]any{"first": c14ProcOps[p].name, "then": c14ProcOps[o].name}
+				c.Input(desc)
+				alone, ok1 := child(o)
+				after, ok2 := child(p, o)
+				again, ok3 := child(p, o, p, o)
+				if !ok1 || !ok2 || !ok3 {
+					return
+				}
+				c.Nontrivial(fmt.Sprint("fresh", p, o))
+				c.Count("fresh_processes_started", 3)
+				if i%7 == 0 {
+					c.Sample(map[string]any{"operation": c14ProcOps[o].name, "alone_in_a_fresh_process": alone[0]})
+				}
+				if after[1] != alone[0] || again[3] != alone[0] || again[1] != alone[0] {
+					c.Violation("nondeterministic:across-processes:history", fmt.Sprintf("%q gives in a fresh process\n%s\nbut in a process that did %q first\n%s", c14ProcOps[o].name, clipS(alone[0], 400), c14ProcOps[p].name, clipS(after[1], 400)), desc)
+				}
+			}}
+			return []core.Section{fresh, {Name: "repetitions", N: n * r2, Run: func(c *core.Ctx, i int) {
 				caseNo, copyNo := i/r2, i%r2
 				// all copies of a case must build the very same case: seed from the case number only
 				rng := core.NewRng("C14", string(c.Tier), c.Seed, caseNo)
